@@ -4,6 +4,7 @@
 #include "vf_main.hpp"
 #include "hist.hpp"
 #include "rec.hpp"
+#include "hep/mc-mpi.hpp"
 
 #include <locale>
 #include <unistd.h>
@@ -176,13 +177,108 @@ template <int F> void flavour_case(Rng& rng, std::uint64_t idx)
     sample(info, 5);
 }
 
+
+// ---- the MPI integrators on the thread shim: interrupt after any iteration, every rank reloads the text rank 0 holds, continue ----------
+// Two ranks: a + b == b + a bitwise, so the seeded reduction order of the shim cannot by itself make a resumed run differ.
+struct GoOnMpi3 { template <typename C> bool operator()(MPI_Comm, C const&) const { return true; } };
+
+template <typename C, typename RunFn> bool mpi_segment(std::string const& from, C const& initial, bool use_text, std::vector<std::size_t> const& seg, RunFn run, std::uint64_t wseed,
+    std::string& out, J const& info)
+{
+    int const P = 2;
+    std::vector<std::string> texts(P);
+    VfWorld world;
+    vf_mpi_run(world, P, wseed, [&](int rank, MPI_Comm comm) {
+        C start = initial;
+        if (use_text) { std::istringstream in(from); start = C(in); }
+        texts[rank] = text_of(run(comm, start, seg));
+    });
+    if (world.aborted || vf_mpi_take_misuse() != 0) { viol("mpi:collective-mismatch-or-wrong-communicator", info); return false; }
+    if (texts[1] != texts[0]) { viol("mpi:ranks-return-different-checkpoints", info); return false; }
+    out = texts[0];
+    return true;
+}
+
+template <typename C, typename RunFn> void mpi_compositions(char const* name, C const& initial, std::vector<std::size_t> const& calls, RunFn run, Rng& rng, J info)
+{
+    std::size_t n = calls.size();
+    info.s("integrator", name);
+    std::string want;
+    if (!mpi_segment<C>("", initial, false, calls, run, rng.next(), want, info)) return;
+    for (std::uint64_t mask = 1; mask < (std::uint64_t(1) << n); ++mask)
+    {
+        // bit 0: the initial checkpoint goes through text; bit k: interruption after iteration k
+        std::string cur = text_of(initial);
+        bool use_text = mask & 1;
+        std::size_t pos = 0;
+        bool ok = true;
+        while (pos < n && ok)
+        {
+            std::size_t end = pos + 1;
+            while (end < n && !(mask & (std::uint64_t(1) << end))) ++end;
+            std::vector<std::size_t> seg(calls.begin() + pos, calls.begin() + end);
+            std::string next;
+            ok = mpi_segment<C>(cur, initial, use_text || pos > 0, seg, run, rng.next(), next, J(info).u("mask", mask));
+            cur = next;
+            pos = end;
+            count("mpi_interruptions");
+        }
+        if (!ok) return;
+        count("mpi_compositions_checked");
+        if (cur != want)
+        {
+            std::size_t p = 0;
+            while (p < cur.size() && p < want.size() && cur[p] == want[p]) ++p;
+            viol(std::string("mpi:resumed-run-differs-from-uninterrupted-run:") + name, J(info).u("mask", mask).u("first_difference_at", p));
+            return;
+        }
+    }
+    nontrivial(mix(hash_str(info.str()), 91));
+}
+
+void mpi_case(Rng& rng, std::uint64_t idx)
+{
+    HistCfg<T> cfg = make_hist_cfg<T>(rng);
+    std::size_t n = rng.range(2, 3);
+    std::vector<std::size_t> calls;
+    for (std::size_t i = 0; i < n; ++i) calls.push_back(rng.below(4) == 0 ? rng.range(1, 3) : rng.range(60, 301));
+    E gen;
+    gen.discard(rng.below(5000));
+    J info;
+    info.s("T", tname<T>::get()).s("engine", VF_ENG_NAME).uv("calls", calls).u("dims", cfg.dims).u("bins", cfg.bins).u("channels", cfg.channels).i("ranks", 2);
+    HistIntegrand<T> f = {&cfg};
+    int kind = (idx / 6) % 3;
+    count("mpi_cases");
+    if (kind == 0)
+    {
+        typedef hep::plain_chkpt_with_rng<E, T> C;
+        mpi_compositions<C>("mpi_plain", C(gen), calls, [&](MPI_Comm comm, C const& c, std::vector<std::size_t> const& seg) {
+            return hep::mpi_plain(comm, hep::make_integrand<T>(f, cfg.dims, hep::make_dist_params<T>(cfg.dbins, cfg.dmin, cfg.dmax, cfg.name1),
+                hep::distribution_parameters<T>(3, 2, cfg.dmin, cfg.dmax, T(0), T(1), cfg.name2)), seg, c, GoOnMpi3()); }, rng, info);
+    }
+    else if (kind == 1)
+    {
+        typedef hep::vegas_chkpt_with_rng<E, T> C;
+        mpi_compositions<C>("mpi_vegas", C(gen, cfg.bins, cfg.alpha), calls, [&](MPI_Comm comm, C const& c, std::vector<std::size_t> const& seg) {
+            return hep::mpi_vegas(comm, hep::make_integrand<T>(f, cfg.dims), seg, c, GoOnMpi3()); }, rng, info);
+    }
+    else
+    {
+        typedef hep::multi_channel_chkpt_with_rng<E, T> C;
+        mpi_compositions<C>("mpi_multi_channel", C(gen, cfg.weights, cfg.min_weight, cfg.beta), calls, [&](MPI_Comm comm, C const& c, std::vector<std::size_t> const& seg) {
+            return hep::mpi_multi_channel(comm, hep::make_multi_channel_integrand<T>(f, cfg.dims, hist_map(cfg), cfg.dims, cfg.channels), seg, c, GoOnMpi3()); }, rng, info);
+    }
+    ++ctx().evaluations;
+}
+
 } // namespace
 
-std::uint64_t vfh_num_cases(bool thorough) { return thorough ? 600 : 90; }
+std::uint64_t vfh_num_cases(bool thorough) { return thorough ? 720 : 108; }
 
 void vfh_run_case(std::uint64_t idx, Rng& rng)
 {
-    switch (idx % 5)
+    if (idx % 6 == 5) { mpi_case(rng, idx); return; }
+    switch ((idx - idx / 6) % 5)
     {
     case 0: flavour_case<0>(rng, idx); break;
     case 1: flavour_case<1>(rng, idx); break;
